@@ -1117,6 +1117,55 @@ class C19(Prop):
         return None
 
 
+class C03(Prop):
+    id = "C03"
+    projection_name = "safe (returned / panicked; number of iterator steps)"
+    profiles = ("debug", "release")
+    needs_no_unsafe = True
+    streams = v1gen.V1_STREAMS + (v2gen.signature, v2gen.control_v2, v2gen.valid_headers, v2gen.truncations,
+                                  v2gen.tlv_small, v2gen.tlv_lists, v2gen.header_tlvs)
+    trusted_extra = ("PARTIAL: panics or hangs that originate inside std, the allocator or `unsafe` code cannot be exhibited by "
+                     "the model; they are covered by observation only (catch_unwind around every case, debug build with overflow "
+                     "checks and release build, step counting, `unsafe` grep)",)
+
+    def groups(self, stream, e, meta):
+        b_len = expr_len(e)
+        if stream.startswith("tlv"):
+            yield ("tlv", ["tlv " + e])
+            return
+        if stream.startswith("v2"):
+            yield ("v2", ["v2 " + e, "auto " + e, "views2 " + e, "htlv " + e] + (["v1b " + e] if b_len < 300 else []))
+            return
+        cases = ["v1b " + e, "auto " + e, "views1 " + e, "v2 " + e]
+        if is_utf8(expr_bytes(e)):
+            cases += ["v1s " + e, "v1fh " + e, "v1fa " + e]
+        yield ("v1", cases)
+
+    def project(self, case, line):
+        if line == "PANIC":
+            return "PANIC"
+        m = re.match(r"n=(\d+) ", line)
+        return "RET" + (" steps=" + m.group(1) if m else "")
+
+    def classify(self, case, line):
+        return case.split(" ")[0] + " " + ("PANIC" if line == "PANIC" else "returned")
+
+    def oracle(self, tag, cases, impl, spec, meta):
+        for c, i in zip(cases, impl):
+            if i == "PANIC":
+                return "panic in %s" % c[:200]
+            if "RUNAWAY" in i:
+                return "TLV iteration does not end: %s" % c[:200]
+            m = re.match(r"n=(\d+) ", i)
+            if m:
+                n = expr_len(c.split(" ")[1])
+                if c.startswith("htlv"):
+                    n = max(n - 16, 0)
+                if int(m.group(1)) > n // 3 + 1:
+                    return "TLV iteration of a %d-byte section took %s steps" % (n, m.group(1))
+        return None
+
+
 def is_utf8(b):
     try:
         b.decode("utf-8")
@@ -1175,7 +1224,7 @@ class XSTD(Prop):
         return iter(())
 
 
-REGISTRY = {c.id: c for c in (XV1(), XC01(), XSTD(), C01(), C04(), C05(), C06(), C08(), C12(), C15(), C16(), C18(), C19(), C02(), C07(), C09(), C10(), C11(), C13(), C14(), C17(), C20())}
+REGISTRY = {c.id: c for c in (XV1(), XC01(), XSTD(), C01(), C03(), C04(), C05(), C06(), C08(), C12(), C15(), C16(), C18(), C19(), C02(), C07(), C09(), C10(), C11(), C13(), C14(), C17(), C20())}
 
 
 def get(prop):
